@@ -309,8 +309,8 @@ def oracle(case, obs):
             nl = body.find(b"\n", a)
             line = body[a:nl + 1] if nl >= 0 else body[a:]
             import re
-            # what int(line.split(b";")[0], 16) accepts (surrounding whitespace, sign, 0x, underscores) counts as well-formed here
-            if not re.fullmatch(rb"[ \t\r\x0b\x0c]*[+-]?(0[xX]_?)?[0-9a-fA-F]+(_[0-9a-fA-F]+)*[ \t\r\x0b\x0c]*(;[^\n]*)?\n", line):
+            # RFC 9112 7.1: chunk-size = 1*HEXDIG, then optional extensions (BWS ";" ...), then CRLF
+            if not re.fullmatch(rb"[0-9a-fA-F]+([ \t]*;[^\r\n]*)?\r\n", line):
                 must_raise = "a chunk-size line is malformed (%r)" % line
         elif case["decode"] and case["coding"] != "identity" and case["framing"] != "chunked":
             if reference_undecodable(case, body):
@@ -320,17 +320,30 @@ def oracle(case, obs):
             return "%s but reading ended normally with %d bytes" % (must_raise, len(got))
         if f[0] == "cut" and complete is not None and got != want:
             return "a cut response ended normally with %d bytes instead of the payload's %d" % (len(got), len(want))
-    elif end != 4 and pooled_open:
-        return "the connection that carried the faulty response was left in the pool with its socket open"
-    elif end != 4 and reused:
-        # (a response whose framing ended cleanly and whose content coding alone was corrupt leaves a usable connection)
-        return "the connection that carried the faulty response was handed to the next request"
+    elif pooled_open:
+        return "the connection that carried the faulty response was left in the pool with its socket open%s" % (" (after DecodeError)" if end == 4 else "")
+    elif reused:
+        return "the connection that carried the faulty response was handed to the next request%s" % (" (after DecodeError)" if end == 4 else "")
     return None
 
 
+LENIENT_SIZE_LINE = rb"[ \t\r\x0b\x0c]*[+-]?(0[xX]_?)?[0-9a-fA-F]+(_[0-9a-fA-F]+)*[ \t\r\x0b\x0c]*(;[^\n]*)?\n"
+
+
 def signature(case, obs, msg):
+    import re
     sig = {"msg": (msg or "")[:50]}
     f = case["fault"]
+    if "(after DecodeError)" in (msg or ""):
+        return {"kind": "connection-kept-after-decode-error"}
+    m = re.search(r"a chunk-size line is malformed \((b'.*')\) but reading ended normally", msg or "")
+    if m:
+        try:
+            line = eval(m.group(1))
+        except Exception:
+            line = b""
+        if re.fullmatch(LENIENT_SIZE_LINE, line):
+            return {"kind": "chunk-size-line-accepted-by-int"}
     if f[0] == "corrupt" and f[2] == 0x2d and case["framing"] == "chunked":
         raw, head, body, complete, spans, eof = build(dict(case, fault=["none"]))
         if any(a == f[1] for a, b in spans):
